@@ -22,6 +22,7 @@ ENTRY = dict(
             "unpack(pack v) = v, every representable value (ints, float/double bit patterns, IPv4/IPv6 tuples, strings/bytes as byte lists)": "theorem",
             "reported size = number of packed bytes (sizing in bytes, non-ASCII included)": "theorem",
             "unpacking from a longer buffer consumes exactly size bytes; the following field is positioned by it": "theorem",
+            "an arbitrary buffer of at least size bytes IS the packed form of one integer / address followed by arbitrary bytes: unpacking returns that value and size": "correspondence (judged against the wire layout, cross-checked with the model)",
             "bit array: value = bit index of the shared byte; a run of k bit fields advances ceil(k/8) bytes (interpretation of DESIGN section 6)": "theorem",
             "re-used instance: to_bytes = pack of the value constructed / unpacked last, size = its length, for every operation sequence": "theorem (canonical operations: representable values, buffers that start with a packed form)",
             "struct formats / sizes of the ten struct-backed classes": "table",
